@@ -55,7 +55,7 @@ pub fn prop() -> Prop {
         stub: &["transport", "store", "glue", "random source", "corrupting / Byzantine network"],
         independent: &[],
         ref_sample: |_| 0,
-        required_probes: &["decoder_bin", "decoder_json", "mut_flip", "mut_insert", "mut_delete", "mut_truncate", "mut_splice", "mut_inflate", "mut_cross_suite", "mutated_still_decodes", "call_sign", "call_aggregate", "call_verify_signature_share", "call_key_package_try_from", "call_dkg_part2", "call_dkg_part3", "call_refresh_share", "call_refresh_dkg", "call_compute_refreshing_shares", "call_repair", "call_reconstruct", "call_batch", "call_rerandomized", "call_split", "call_misc", "targeted_zero_sum_dkg", "targeted_oversized_share"],
+        required_probes: &["decoder_bin", "decoder_json", "mut_flip", "mut_insert", "mut_delete", "mut_truncate", "mut_splice", "mut_inflate", "mut_cross_suite", "mutated_still_decodes", "call_sign", "call_aggregate", "call_verify_signature_share", "call_key_package_try_from", "call_dkg_part2", "call_dkg_part3", "call_refresh_share", "call_refresh_dkg", "call_compute_refreshing_shares", "call_repair", "call_reconstruct", "call_batch", "call_rerandomized", "call_split", "call_misc", "targeted_zero_sum_dkg", "targeted_oversized_share", "targeted_refresh_with_mismatched_package"],
         prepare: None,
     }
 }
@@ -210,8 +210,25 @@ fn mutate_json(p: &mut Prng, base: &[u8]) -> Vec<u8> {
     }
     let mut all = Vec::new();
     paths(&v, vec![], &mut all);
-    let path = p.pick(&all).clone();
-    let repl = match p.below(12) {
+    let mut path = p.pick(&all).clone();
+    // header fields are the gate every message passes: bias some mutations onto them
+    if p.chance(1, 6) {
+        if let Some(hp) = all.iter().find(|x| x.last().map(|l| l == "ciphersuite").unwrap_or(false)) {
+            path = hp.clone();
+        }
+    }
+    let non_ascii = |p: &mut Prng| -> String {
+        // long strings of multi-byte characters at every alignment (truncation / slicing at a byte offset is a classic)
+        let unit = *p.pick(&["\u{0444}", "\u{6f22}", "\u{1F980}", "\u{00e9}", "FROST-\u{0436}"]);
+        let mut s = "x".repeat(p.below(4) as usize);
+        let n = p.range(1, 120) as usize;
+        for _ in 0..n {
+            s.push_str(unit);
+        }
+        s
+    };
+    let repl = match p.below(14) {
+        12 | 13 => json!(non_ascii(p)),
         0 => Value::Null,
         1 => json!(0),
         2 => json!(-1),
@@ -700,6 +717,63 @@ fn exec_c<C: Suite>(scen: &Scenario) -> Exec {
                             if let Err(msg) = r {
                                 return Exec::Violation(Violation::new("C14", "C14.panic", format!("dkg::part3 / from_dkg_commitments with a round-1 contribution that cancels all other constant terms (group key = identity): PANIC {msg}")), rep);
                             }
+                        }
+                    }
+                }
+            }
+        }
+    }
+    // (3) distributed refresh with honest material, but a public key package that does not match the participant set: lacking the
+    //     caller's OWN entry (a participant enrolled by share repair holds exactly such a package), lacking a peer, legacy, empty
+    {
+        let members: Vec<usize> = (0..cx.kps.len().min(scen.n as usize)).collect();
+        let m = members.len();
+        if m >= 2 {
+            let mut secs = Vec::new();
+            let mut pkgs: BTreeMap<Identifier<C>, round1::Package<C>> = BTreeMap::new();
+            for j in &members {
+                let rng = SimRng::good(stream(scen.seed, scen.run, &format!("c14/refresh/{j}")));
+                if let Ok((sec, pkg)) = refresh::refresh_dkg_part1::<C, _>(*cx.kps[*j].identifier(), m as u16, scen.t, rng) {
+                    pkgs.insert(*cx.kps[*j].identifier(), pkg);
+                    secs.push(sec);
+                }
+            }
+            if secs.len() == m {
+                let me_id = *cx.kps[0].identifier();
+                let mut r1 = pkgs.clone();
+                r1.remove(&me_id);
+                if let Ok((s2, _)) = refresh::refresh_dkg_part2::<C>(secs[0].clone(), &r1) {
+                    // honest round-2 shares for the caller
+                    let mut r2: BTreeMap<Identifier<C>, round2::Package<C>> = BTreeMap::new();
+                    for j in 1..m {
+                        let mut mj = pkgs.clone();
+                        mj.remove(cx.kps[j].identifier());
+                        if let Ok((_, out)) = refresh::refresh_dkg_part2::<C>(secs[j].clone(), &mj) {
+                            if let Some(pk) = out.get(&me_id) {
+                                r2.insert(*cx.kps[j].identifier(), pk.clone());
+                            }
+                        }
+                    }
+                    let full = cx.pk.verifying_shares().clone();
+                    let mut variants: Vec<(&str, BTreeMap<Identifier<C>, VerifyingShare<C>>, Option<u16>)> = Vec::new();
+                    let mut no_own = full.clone();
+                    no_own.remove(&me_id);
+                    variants.push(("lacking the caller's own entry", no_own, cx.pk.min_signers()));
+                    let mut no_peer = full.clone();
+                    no_peer.remove(cx.kps[1].identifier());
+                    variants.push(("lacking a peer's entry", no_peer, cx.pk.min_signers()));
+                    variants.push(("legacy (no recorded threshold)", full.clone(), None));
+                    variants.push(("empty", BTreeMap::new(), cx.pk.min_signers()));
+                    variants.push(("honest", full.clone(), cx.pk.min_signers()));
+                    for (vname, vs, thr) in variants {
+                        let pkx = PublicKeyPackage::<C>::new(vs, *cx.pk.verifying_key(), thr);
+                        rep.evaluations += 1;
+                        rep.probe("targeted_refresh_with_mismatched_package");
+                        let r = guarded(|| {
+                            let _ = refresh::refresh_dkg_shares::<C>(&s2, &r1, &r2, pkx.clone(), cx.kps[0].clone());
+                        });
+                        if let Err(msg) = r {
+                            return Exec::Violation(Violation::new("C14", "C14.panic", format!("refresh_dkg_shares with honest contributions and a public key package {vname}: PANIC {msg}")), rep);
                         }
                     }
                 }
